@@ -41,6 +41,10 @@ CHECKS = {
    technique='deterministic simulation of the include_bytes I/O clause: blobs and same-named decoys placed relative to several simulated working directories on an in-memory file system, API and CLI, TOCTOU size/content faults as observations; reference packer oracle; value/string clauses enumerated as riding workload',
    text='Seeded search over blob placement x cwd x decoys x content kinds, each tree assembled from three working directories and through the CLI and compared with an independent reference image; boundary values for every directive/format are enumerated exhaustively ({min-1..umax+1} per width), strings sampled over ASCII/escapes/Latin-1/BMP/astral.',
    note='Only the include_bytes clause is a genuine simulation target; the value and string clauses are pure functions of the text and are enumerated as workload (DESIGN.md 3.7 says so openly). Trusted: sim/refpack.py (int.to_bytes, hand-written escape/UTF-8 code).'),
+ 'C16': dict(engine='history', category='exploration', ref='3.4',
+   technique='deterministic simulation of call histories: seeded sequences of assemble() calls on related programs, file edits, chdir, calls torn down at arbitrary executed lines and SimFS read faults, all in one process; refinement against a pristine-process reference obtained by fork; invariants on module tables, earlier results and caller objects after every step; re-execution in fresh interpreters under different PYTHONHASHSEED',
+   text='Seeded search over histories of 4-24 operations on a pool of definer/user program pairs sharing names (built so that leakage turns a refusal into an acceptance or changes bytes); every step is compared with the same call on the same snapshot in a process that never assembled anything; a sample of histories and CLI runs is repeated under 3 hash seeds in fresh interpreters.',
+   note='Trusted: fork gives the pristine state; a non-empty constants argument is an input; crashed steps are faults whose own outcome is not compared; threads are out of scope (the property speaks of call histories). Only the named semantic tables and function defaults are invariants; other module-level containers (caches) are judged by their effect.'),
 }
 
 def main():
